@@ -814,10 +814,17 @@ def _tracked_bools(fn):
     """User-named bool locals that receive at least one constant assignment (materialised conditions)."""
     out = set()
     for n, (ty, name) in enumerate(fn.locals):
-        if ty != "bool" or not name or n <= fn.argc:
+        if ty != "bool" or n <= fn.argc:
             continue
-        for d in fn.defs().get(n, []):
-            if d[2] == "assign" and d[3][4][0] == "use" and d[3][4][1][0] == "k" and isinstance(d[3][4][1][2], bool):
+        ds = fn.defs().get(n, [])
+        consts = [d for d in ds if d[2] == "assign" and d[3][4][0] == "use" and d[3][4][1][0] == "k" and isinstance(d[3][4][1][2], bool)]
+        if name:
+            if consts:
+                out.add(n)
+        else:
+            # compiler temporaries of `matches!(..)` / `a && b`: exactly one `true` and one `false` definition
+            # (drop flags have an initialisation plus set/clear definitions and are left out to keep the state space small)
+            if len(ds) == 2 and len(consts) == 2 and {d[3][4][1][2] for d in consts} == {True, False}:
                 out.add(n)
     return out
 
